@@ -2,7 +2,7 @@
 # usage: seed_intake.sh <ID> [name]  -- verify a sub-agent's seeded change (/tmp/seed-ID, /tmp/seed-ID-out)
 # and store it under /verif/seeded/<ID>-<name>/ with meta.json.
 ID=$1; NAME=${2:-1}
-WT=/tmp/seed-$ID; OUT=/tmp/seed-$ID-out
+R=${SEED_ROUND:-}; WT=/tmp/seed$R-$ID; OUT=/tmp/seed$R-$ID-out
 export GOFLAGS=-mod=mod GOPROXY=off
 [ -f $OUT/patch.diff ] || { echo "no patch.diff"; exit 2; }
 DST=/verif/seeded/$ID-$NAME; mkdir -p $DST
